@@ -277,23 +277,25 @@ example : evaluateLift (FieldOps.ofField ℚ) (algebraMap ℚ ℚ) [1, 2, 0] 3
     = evaluateLift (FieldOps.ofField ℚ) (algebraMap ℚ ℚ) [1, 2] 3 :=
   (evaluate_mixed_respects_denote (fun _ => none) (fun _ => none) (by simp) 3 0).2.1
 
-/-- `truncate(k)` as compiled (release profile, `k + 1` in `usize`): for every `k < usize::MAX` it is the `truncate`
-    of `truncate_spec`, and on every `k` it reads `coefficients()` only — the same result on every storage -/
+/-- `truncate(k)` as compiled (after the repair F13: `take(k.saturating_add(1))`): for EVERY `k` (`usize::MAX` included)
+    it reads `coefficients()` only — the same result on every storage — and it is the `truncate` of `truncate_spec` for
+    every polynomial with fewer than `2^64` coefficients -/
 theorem truncate_usize_respects_denote {a a' : List K} (h : denote a = denote a') (k : Nat) :
     truncateUsize FK a k = truncateUsize FK a' k ∧
-    (k + 1 < 2 ^ 64 → truncateUsize FK a k = truncate FK a k) :=
+    ((normalize FK a).length < 2 ^ 64 → truncateUsize FK a k = truncate FK a k) :=
   ⟨truncateUsize_congr root h k, truncateUsize_eq root a k⟩
 example : truncateUsize (FieldOps.ofField ℚ) [1, 2, 0] 0 = truncateUsize (FieldOps.ofField ℚ) [1, 2] 0 :=
   (truncate_usize_respects_denote _ (by simp) 0).1
 
-/-- **finding F13** (negation witness): at `k = usize::MAX` the compiled `truncate` returns the zero polynomial for
-    every input, whereas the documented result ("degree = min(k, degree)", `truncate_spec`) is the polynomial itself;
-    `[1,2,3].truncate(usize::MAX) = 0 ≠ 1 + 2X + 3X²` -/
-theorem truncate_usize_max_violates :
-    truncateUsize (FieldOps.ofField ℚ) [1, 2, 3] (2 ^ 64 - 1) = [] ∧
+/-- **defect F13, for the record** (repaired by a `fix:` commit; negation witness for the code as it was): at
+    `k = usize::MAX` the `truncate` compiled before the repair returned the zero polynomial for every input, whereas the
+    documented result ("degree = min(k, degree)", `truncate_spec`) is the polynomial itself;
+    `[1,2,3].truncate(usize::MAX)` was `0 ≠ 1 + 2X + 3X²`; the repaired function returns `[1,2,3]` -/
+theorem truncate_usize_max_violated_before_F13 :
+    truncateBeforeF13 (FieldOps.ofField ℚ) [1, 2, 3] (2 ^ 64 - 1) = [] ∧
     truncate (FieldOps.ofField ℚ) [1, 2, 3] (2 ^ 64 - 1) = [1, 2, 3] ∧
-    denote (truncateUsize (FieldOps.ofField ℚ) [1, 2, 3] (2 ^ 64 - 1)) ≠ denote ([1, 2, 3] : List ℚ) := by
-  have h0 := truncateUsize_max (fun _ => none) ([1, 2, 3] : List ℚ)
+    denote (truncateBeforeF13 (FieldOps.ofField ℚ) [1, 2, 3] (2 ^ 64 - 1)) ≠ denote ([1, 2, 3] : List ℚ) := by
+  have h0 := truncateBeforeF13_max (fun _ => none) ([1, 2, 3] : List ℚ)
   refine ⟨h0, ?_, ?_⟩
   · have hn : normalize (FieldOps.ofField ℚ) [1, 2, 3] = [1, 2, 3] :=
       normalize_of_normal (fun _ => none) (by simp [Normal])
